@@ -12,3 +12,17 @@ package embedded
 //@ func PillarApi.GetPillarEpochHistory(a, pillarName, pageIndex, pageSize) -> (res, err)
 //@   loop 1
 //@     invariant 0 <= i && lastEpoch != nil && (lastEpoch.LastEpoch >= -1 ==> epoch == lastEpoch.LastEpoch - pageIndex * pageSize - i)
+
+// ---- documented order of paged lists (C18): the whole list is sorted BEFORE the page window is cut out of it ---------------
+// (`sorted(s)`: the ghost the model of sort.Sort sets - exactly this window of the array was sorted last; the comparison
+// function itself is not interpreted)
+//@ func StakeApi.GetEntriesByAddress(a, address, pageIndex, pageSize) -> (res, err)
+//@   requires a != nil
+//@   at-call GetRange assert[the-whole-list-is-sorted-before-it-is-paged] sorted(list) && arg0 == pageIndex && arg1 == pageSize
+//@   ensures-local[count-is-the-whole-list] res != nil ==> res.Count == len(list) && len(res.Entries) == end - start
+//@ func LiquidityApi.GetLiquidityStakeEntriesByAddress(a, address, pageIndex, pageSize) -> (res, err)
+//@   requires a != nil
+//@   at-call GetRange assert[the-whole-list-is-sorted-before-it-is-paged] sorted(list) && arg0 == pageIndex && arg1 == pageSize
+//@ func PlasmaApi.GetEntriesByAddress(a, address, pageIndex, pageSize) -> (res, err)
+//@   requires a != nil
+//@   at-call GetRange assert[the-whole-list-is-sorted-before-it-is-paged] sorted(list) && arg0 == pageIndex && arg1 == pageSize
